@@ -131,8 +131,13 @@ func (s *c19Sys) Reset() {
 	s.closeAll()
 	s.origins = nil
 	var servers []config.UpstreamServerConfig
+	free := freeAddrs(s.n) // ports the kernel reports free right now; an origin keeps its port across its down / up toggles
 	for i := 0; i < s.n; i++ {
-		o := &c19Origin{idx: i, addr: fmt.Sprintf("127.0.0.1:%d", 21000+(os.Getpid()%1100)*8+i)} // per-process port block below the ephemeral range
+		addr := fmt.Sprintf("127.0.0.1:%d", 21000+(os.Getpid()%1100)*8+i)
+		if i < len(free) {
+			addr = free[i]
+		}
+		o := &c19Origin{idx: i, addr: addr}
 		err := o.start()
 		for try := 0; try < 20 && err != nil; try++ {
 			time.Sleep(50 * time.Millisecond)
